@@ -52,7 +52,8 @@
 EXTENDS Integers, Sequences, FiniteSets, TLC
 
 CONSTANTS Defect,      \* "none" | "crosswire" | "drop" | "wronggate" | "splitoff" | "reorder" | "zerodefault"
-          MaxChanges   \* leaves changed in one abstract run
+          MaxChanges,  \* leaves changed in one abstract run
+          FocusKeys    \* the model leaves that are changed ({} = all of them)
 
 Absent == "<absent>"
 
@@ -652,12 +653,16 @@ MTargets == {e.tgt : e \in MEntries}
 SrcEntry(t) == LET c == {e \in MEntries : e.tgt = t /\ e.xf # "flag"} IN
                IF c # {} THEN CHOOSE e \in c : TRUE ELSE CHOOSE e \in MEntries : e.tgt = t
 
+Pool == {"m1", "m2", "f1", "f2", "x"}
 Sibling == ("ratelimit.ipv6.interval@" :> "ratelimit.ipv4.interval@")
            @@ ("ratelimit.tcp.enabled@" :> "ratelimit.quic.enabled@")
 Dropped == {"profiledb.Config.ResponseSizeEstimate"}
 
-Pool == {"m1", "m2", "f1", "f2", "x"}
-SrcOf == [t \in MTargets |-> SrcEntry(t)]
+\* the leaves the value of target t depends on (also under the cross-wiring defect)
+DepsOf(e) == LET lk == ProfLeaf(e) IN
+             {lk, e.gate, e.src} \cup (IF lk \in DOMAIN Sibling THEN {Sibling[lk]} ELSE {})
+                 \cup (IF e.xf = "cachetype" THEN {"cache.size@", "cache.type@"} ELSE {})
+SrcOf == [t \in MTargets |-> LET e == SrcEntry(t) IN [e |-> e, lk |-> ProfLeaf(e), deps |-> DepsOf(e)]]
 VARIABLES conf, mains, fbs, last, n,
           impl,    \* what the glue hands to the components: a function of conf, kept to compare two states
           tab      \* SrcOf, evaluated once (TLC evaluates a constant function lazily at every application)
@@ -666,8 +671,8 @@ vars == <<conf, mains, fbs, last, n, impl, tab>>
 Cur(c, k) == IF k \in DOMAIN c THEN c[k] ELSE "on?"
 \* the glue, with the defect classes
 ImplVal(t, c, st) ==
-    LET e == st[t]
-        lk == ProfLeaf(e)
+    LET e == st[t].e
+        lk == st[t].lk
         src == IF Defect = "crosswire" /\ lk \in DOMAIN Sibling THEN Sibling[lk] ELSE lk
         v == c[src]
         C(k) == IF Defect = "wronggate" /\ IsGateXf(e) /\ k = e.gate THEN e.on ELSE Cur(c, k)
@@ -686,23 +691,29 @@ Init == conf = Base /\ mains = <<"m1", "m2">> /\ fbs = <<"f1", "f2">> /\ last = 
         /\ tab = SrcOf /\ impl = Impl(Base, SrcOf)
 SetLeaf(k, v) == /\ n < MaxChanges /\ v # conf[k]
                  /\ conf' = [conf EXCEPT ![k] = v] /\ last' = k /\ n' = n + 1 /\ UNCHANGED <<mains, fbs>>
-                 /\ impl' = Impl(conf', tab) /\ UNCHANGED tab
+                 \* (only what depends on k is converted again)
+                 /\ impl' = [t \in MTargets |-> IF k \in tab[t].deps THEN ImplVal(t, conf', tab) ELSE impl[t]]
+                 /\ UNCHANGED tab
 Shapes == {<<"m1">>, <<"m1", "m2">>, <<"m2", "m1">>, <<"m1", "m2", "x">>}
 FShapes == {<<"f1">>, <<"f1", "f2">>, <<"f2", "f1">>, <<"f1", "f2", "x">>}
 SetLists(ms, fs) == /\ n < MaxChanges /\ <<ms, fs>> # <<mains, fbs>>
                     /\ mains' = ms /\ fbs' = fs /\ last' = "lists" /\ n' = n + 1 /\ UNCHANGED <<conf, impl, tab>>
-Next == \/ \E k \in ModelKeys : \E v \in Classes(k) : SetLeaf(k, v)
+NextKeys == IF FocusKeys = {} THEN ModelKeys ELSE FocusKeys \cap ModelKeys
+Next == \/ \E k \in NextKeys : \E v \in Classes(k) : SetLeaf(k, v)
         \/ \E ms \in Shapes : \E fs \in FShapes : SetLists(ms, fs)
 Spec == Init /\ [][Next]_vars
 
 CurNow(k) == Cur(conf, k)
-Holds(e) == impl[e.tgt] = Expected(e, conf[ProfLeaf(e)], CurNow)
+\* (entries paired with the key of their leaf: string concatenation is costly in TLC)
+MEntriesK == {<<e, ProfLeaf(e)>> : e \in MEntries}
+MAllowedK == {<<ProfLeaf(e), e.tgt>> : e \in MAllowed}
+Holds(p) == impl[p[1].tgt] = Expected(p[1], conf[p[2]], CurNow)
 \* the switch of e is in the position in which the target is NOT to carry the value
 GateOff(e, v, C(_)) == IsGateXf(e) /\ IF e.xf = "flag" THEN v # e.on ELSE C(e.gate) # e.on
-Off(e) == GateOff(e, conf[ProfLeaf(e)], CurNow)
-Reaches == \A e \in MEntries : (~Off(e) /\ ~IsLow(conf[ProfLeaf(e)])) => Holds(e)
-ZeroIsMeaningful == \A e \in MEntries : (~Off(e) /\ IsLow(conf[ProfLeaf(e)])) => Holds(e)
-GatedByOwnFlag == \A e \in MEntries : Off(e) => Holds(e)
+Off(p) == GateOff(p[1], conf[p[2]], CurNow)
+Reaches == \A p \in MEntriesK : (~Off(p) /\ ~IsLow(conf[p[2]])) => Holds(p)
+ZeroIsMeaningful == \A p \in MEntriesK : (~Off(p) /\ IsLow(conf[p[2]])) => Holds(p)
+GatedByOwnFlag == \A p \in MEntriesK : Off(p) => Holds(p)
 PartitionExact == /\ Len(ImplMains(mains, fbs)) = Len(mains) /\ Len(ImplFbs(mains, fbs)) = Len(fbs)
                   /\ {ImplMains(mains, fbs)[i] : i \in 1..Len(mains)} = {mains[i] : i \in 1..Len(mains)}
                   /\ {ImplFbs(mains, fbs)[i] : i \in DOMAIN ImplFbs(mains, fbs)} = {fbs[i] : i \in 1..Len(fbs)}
@@ -711,8 +722,8 @@ OrderPreserved == PartitionExact => (ImplMains(mains, fbs) = mains /\ ImplFbs(ma
 NoCrossTalkStep ==
     (last' # "lists" /\ last' # "") =>
         \A t \in MTargets : impl'[t] # impl[t] =>
-            \/ \E e \in MAllowed : ProfLeaf(e) = last' /\ e.tgt = t
-            \/ tab[t].gate = last'      \* a switch owns what it gates
+            \/ <<last', t>> \in MAllowedK
+            \/ tab[t].e.gate = last'      \* a switch owns what it gates
 NoCrossTalk == [][NoCrossTalkStep]_vars
 RelationWellFormed == WellFormed
 =============================================================================
